@@ -5,6 +5,7 @@
 //!   from_str, nested:   fn from_str(s: &str) -> Self { match D::from_str(s) {
 //!                           D::X(e) => match e.as_str() { "lit" => T::V, .., _ => T::B(D::X(e)) },
 //!                           b => T::B(b) } }
+//!   from_str, own first: fn from_str(s: &str) -> Self { match s { "lit" => T::V, .., x => T::B(D::from_str(x)) } }
 //!   as_ref:             fn as_ref(&self) -> &str { match self | *self {
 //!                           T::V => "lit", .., T::W(ref? e) => e.as_str() | e.as_ref() } }
 //! Arms may come in any order; the generated tables are sorted by literal / variant.
@@ -20,6 +21,9 @@ pub struct FromStr {
     pub fallback: String,
     /// nested: the inner default arm rebuilds `T::fallback(D::on_variant(payload))`
     pub inner_default_rewraps: bool,
+    /// flat form with a delegate: the enum's own literals are matched first and everything else goes to
+    /// `D::from_str` (`other => T::fallback(D::from_str(other))`)
+    pub own_first: bool,
 }
 
 pub struct AsRef {
@@ -136,6 +140,7 @@ pub fn from_str(file: &str, src: &syn::File, ty: &str) -> R<FromStr> {
         // direct form
         let mut arms = Vec::new();
         let mut fallback = None;
+        let mut delegate = None;
         for a in &m.arms {
             if a.guard.is_some() {
                 return fail(file, &item, "arms without guards");
@@ -144,6 +149,13 @@ pub fn from_str(file: &str, src: &syn::File, ty: &str) -> R<FromStr> {
                 arms.push((l, variant_of(file, &item, ty, &a.body)?));
             } else if let Some(b) = pat_binding(&a.pat) {
                 match wrap_call(ty, &a.body) {
+                    // other => T::W(D::from_str(other)): the own literals first, the delegate for the rest
+                    Some((v, arg)) if arg.ends_with(&format!("::from_str({b})")) && arg.matches("::").count() == 1 => {
+                        if fallback.replace(v).is_some() {
+                            return fail(file, &item, "exactly one catch-all arm");
+                        }
+                        delegate = Some(arg[..arg.len() - format!("::from_str({b})").len()].to_string());
+                    }
                     Some((v, arg)) if arg == format!("{b}.to_string()") || arg == format!("{b}.to_owned()") || arg == format!("{b}.into()") || arg == format!("String::from({b})") => {
                         if fallback.replace(v).is_some() {
                             return fail(file, &item, "exactly one catch-all arm");
@@ -157,7 +169,8 @@ pub fn from_str(file: &str, src: &syn::File, ty: &str) -> R<FromStr> {
         }
         let fallback = fallback.ok_or(()).or_else(|_| fail(file, &item, "a catch-all arm keeping the unrecognised text"))?;
         arms.sort();
-        return Ok(FromStr { delegate: None, on_variant: None, arms, fallback, inner_default_rewraps: false });
+        let own_first = delegate.is_some();
+        return Ok(FromStr { delegate, on_variant: None, arms, fallback, inner_default_rewraps: false, own_first });
     }
     // nested form: match D::from_str(s) { D::X(e) => match e.as_str() {..}, b => T::B(b) }
     let delegate = match &*m.expr {
@@ -258,7 +271,7 @@ pub fn from_str(file: &str, src: &syn::File, ty: &str) -> R<FromStr> {
         }
     }
     real.sort();
-    Ok(FromStr { delegate: Some(delegate), on_variant: Some(on_variant), arms: real, fallback, inner_default_rewraps: rewraps })
+    Ok(FromStr { delegate: Some(delegate), on_variant: Some(on_variant), arms: real, fallback, inner_default_rewraps: rewraps, own_first: false })
 }
 
 pub fn as_ref(file: &str, src: &syn::File, ty: &str) -> R<AsRef> {
@@ -321,12 +334,13 @@ pub fn as_ref(file: &str, src: &syn::File, ty: &str) -> R<AsRef> {
 fn emit_from(name: &str, doc: &str, t: &FromStr) -> String {
     use lean::*;
     format!(
-        "/-- {doc} -/\ndef {name} : FromStr :=\n  {{ delegate := {}, onVariant := {},\n    arms := {},\n    fallback := {}, innerDefaultRewraps := {} }}\n\n",
+        "/-- {doc} -/\ndef {name} : FromStr :=\n  {{ delegate := {}, onVariant := {},\n    arms := {},\n    fallback := {}, innerDefaultRewraps := {}, ownFirst := {} }}\n\n",
         opt_s(&t.delegate),
         opt_s(&t.on_variant),
         list_multiline(&t.arms.iter().map(|(a, b)| pair(a, b)).collect::<Vec<_>>(), "      "),
         s(&t.fallback),
-        b(t.inner_default_rewraps)
+        b(t.inner_default_rewraps),
+        b(t.own_first)
     )
 }
 
@@ -346,7 +360,7 @@ pub fn extract(srcs: &Sources) -> R<String> {
     );
     o.push_str("namespace Gen.ErrorTables\n\n");
     o.push_str(
-        "/-- `from_str`: `arms` = (literal, variant).\n* `delegate = none`: the text is matched directly; unrecognised text is kept in variant `fallback`.\n* `delegate = some D`: `D::from_str` runs first; only when it yields `D::onVariant(text)` is `text` matched\n  against `arms`; every other delegate result `r` (and unrecognised text, re-wrapped in `D::onVariant`\n  when `innerDefaultRewraps`) becomes `fallback(r)`. -/\nstructure FromStr where\n  delegate : Option String\n  onVariant : Option String\n  arms : List (String × String)\n  fallback : String\n  innerDefaultRewraps : Bool\nderiving DecidableEq, Repr\n\n",
+        "/-- `from_str`: `arms` = (literal, variant).\n* `delegate = none`: the text is matched directly; unrecognised text is kept in variant `fallback`.\n* `delegate = some D`: `D::from_str` runs first; only when it yields `D::onVariant(text)` is `text` matched\n  against `arms`; every other delegate result `r` (and unrecognised text, re-wrapped in `D::onVariant`\n  when `innerDefaultRewraps`) becomes `fallback(r)`.\n* `delegate = some D` and `ownFirst`: the text is matched against `arms` first; everything else becomes\n  `fallback(D::from_str(text))` (the same function as the previous form when no literal of `arms` is one of D's). -/\nstructure FromStr where\n  delegate : Option String\n  onVariant : Option String\n  arms : List (String × String)\n  fallback : String\n  innerDefaultRewraps : Bool\n  ownFirst : Bool\nderiving DecidableEq, Repr\n\n",
     );
     o.push_str(
         "/-- `as_ref`: `arms` = (variant, literal); `passthrough` = (variant, how) with how = \"payload\" (the stored\ntext itself) or \"delegate\" (the wrapped value's own `as_ref`). -/\nstructure AsRefTable where\n  arms : List (String × String)\n  passthrough : List (String × String)\nderiving DecidableEq, Repr\n\n",
